@@ -558,3 +558,14 @@ pub fn start_watchdog(property: &str, tier: &str, limit_s: u64) {
         }
     });
 }
+
+/// Environment action any other thread of a real program performs all the time: pin the
+/// epoch collector and let it advance and run deferred destructors. A reader that is
+/// (correctly) pinned blocks the advance; memory freed under an unpinned reader is then
+/// really freed while that reader is parked, which the sanitizer build sees.
+pub fn epoch_pump() {
+    for _ in 0..6 {
+        let g = crossbeam_epoch::pin();
+        g.flush();
+    }
+}
